@@ -177,10 +177,11 @@ class Backfilling(TMGRSchedulingComponent):
                     continue
 
                 if uid not in info['tasks']:
-                    # this contradicts the task's assignment
+                    # not placed by this policy (bound by the application, or
+                    # placed before the pilot was added again): the task holds
+                    # no share of `used`
                     self._log.debug('upd task  %s not in tasks', uid)
-                    self._log.error('bf: task %s on %s inconsistent', uid, pid)
-                    raise RuntimeError('inconsistent scheduler state')
+                    continue
 
                 # this task is now considered done
                 info['done'].append(uid)
